@@ -121,9 +121,9 @@ def bound_consistency_algorithm(
             if shr_domains_stack[top, shr_domain_idx, MAX] != shr_domain_max:
                 shr_domains_stack[top, shr_domain_idx, MAX] = shr_domain_max
                 events |= EVENT_MASK_MAX
-            if shr_domain_min == shr_domain_max:
-                events |= EVENT_MASK_GROUND
             if events != 0:
+                if shr_domain_min == shr_domain_max:
+                    events |= EVENT_MASK_GROUND
                 shr_domains_changes = True
                 add_propagators(
                     triggered_propagators,
